@@ -20,6 +20,9 @@ type ErrDesc struct {
 	Msg   string   `json:"msg"`
 	Text  string   `json:"text"`
 	Cause *ErrDesc `json:"cause,omitempty"`
+	// Embed (kind foreign only): the foreign type EMBEDS a library exception ("app" | "transport" | "protocol") and
+	// overrides Error() and TypeId(); for the helpers it is still just a foreign type with a type id
+	Embed string `json:"embed,omitempty"`
 }
 
 type ExcCase struct {
@@ -37,6 +40,29 @@ type foreignExc struct {
 
 func (f *foreignExc) Error() string { return f.s }
 func (f *foreignExc) TypeId() int32 { return f.t }
+
+type foreignEmbApp struct {
+	*thrift.ApplicationException
+	t int32
+	s string
+}
+type foreignEmbTransport struct {
+	*thrift.TransportException
+	t int32
+	s string
+}
+type foreignEmbProtocol struct {
+	*thrift.ProtocolException
+	t int32
+	s string
+}
+
+func (f *foreignEmbApp) Error() string       { return f.s }
+func (f *foreignEmbApp) TypeId() int32       { return f.t }
+func (f *foreignEmbTransport) Error() string { return f.s }
+func (f *foreignEmbTransport) TypeId() int32 { return f.t }
+func (f *foreignEmbProtocol) Error() string  { return f.s }
+func (f *foreignEmbProtocol) TypeId() int32  { return f.t }
 
 func descJSON(d *ErrDesc) string {
 	if d == nil || d.Kind == "none" {
@@ -60,7 +86,16 @@ func buildErr(d *ErrDesc, memo map[int]error) error {
 	case "plain":
 		e = errors.New(d.Text)
 	case "foreign":
-		e = &foreignExc{int32(d.Tid), d.Text}
+		switch d.Embed {
+		case "app":
+			e = &foreignEmbApp{thrift.NewApplicationException(77, "inner"), int32(d.Tid), d.Text}
+		case "transport":
+			e = &foreignEmbTransport{thrift.NewTransportException(77, "inner"), int32(d.Tid), d.Text}
+		case "protocol":
+			e = &foreignEmbProtocol{thrift.NewProtocolException(77, "inner"), int32(d.Tid), d.Text}
+		default:
+			e = &foreignExc{int32(d.Tid), d.Text}
+		}
 	case "fmtwrap": // text = "ctx: " + the cause's text
 		e = fmt.Errorf("ctx: %w", buildErr(d.Cause, memo))
 	case "application":
@@ -89,6 +124,12 @@ func obsJSON(e error) string {
 	case *thrift.ApplicationException:
 		kind, tid = "application", int(x.TypeId())
 	case *foreignExc:
+		kind, tid = "foreign", int(x.TypeId())
+	case *foreignEmbApp:
+		kind, tid = "foreign", int(x.TypeId())
+	case *foreignEmbTransport:
+		kind, tid = "foreign", int(x.TypeId())
+	case *foreignEmbProtocol:
 		kind, tid = "foreign", int(x.TypeId())
 	}
 	return fmt.Sprintf(`{"kind":%q,"tid":%d,"text":%s}`, kind, tid, jstr(e.Error()))
@@ -216,6 +257,22 @@ func genExcCases(c *Ctx) []json.RawMessage {
 			out = append(out, mustJSON(ExcCase{Fn: "prepend", Prefix: p, In: d}))
 		}
 		out = append(out, mustJSON(ExcCase{Fn: "wrap", In: d}))
+	}
+	// foreign types that embed a library exception and override Error() / TypeId(): still foreign for PrependError
+	// (application exception with the OVERRIDING id and text); NewProtocolExceptionWithErr wraps the app / transport ones
+	for _, emb := range []string{"app", "transport", "protocol"} {
+		for _, t := range tids {
+			for _, m := range msgs[:4] {
+				d := mk("foreign", t, m)
+				d.Embed = emb
+				for _, p := range []string{"", "p: "} {
+					out = append(out, mustJSON(ExcCase{Fn: "prepend", Prefix: p, In: d}))
+				}
+				if emb != "protocol" {
+					out = append(out, mustJSON(ExcCase{Fn: "wrap", In: d}))
+				}
+			}
+		}
 	}
 	// Is truth table: every pair from a reduced set + targeted (tid, text) matches
 	var small []*ErrDesc
